@@ -101,6 +101,10 @@ pub struct HttpCase {
     /// true: the request names the shared fixture data (so a delete / overwrite would be visible)
     pub fixture_keys: bool,
     pub token_first_in_query: bool,
+    /// true: the request goes to the node that has no Raft leader (it cannot look a token up anywhere but in its
+    /// own cache); every token, also one that node A issued, is "not valid" there
+    #[serde(default)]
+    pub leaderless: bool,
 }
 
 #[derive(Debug, Clone, Serialize, Deserialize, Hash)]
@@ -140,13 +144,15 @@ pub fn http_case_strategy() -> impl Strategy<Value = Case> {
         prop::option::weighted(0.2, (carrier_strategy(), tokval_strategy())),
         any::<bool>(),
         any::<bool>(),
+        prop::bool::weighted(0.15),
     )
-        .prop_map(|(route, method, ops, carrier, value, decoy, fixture_keys, token_first_in_query)| {
+        .prop_map(|(route, method, ops, carrier, value, decoy, fixture_keys, token_first_in_query, leaderless)| {
             let decoy = match decoy {
                 Some((c, v)) if value != TokVal::Valid && v != TokVal::Valid && c != Carrier::None && c != carrier => Some((c, v)),
                 _ => None,
             };
-            Case::Http(HttpCase { route, path: None, method, ops, carrier, value, decoy, fixture_keys, token_first_in_query })
+            let leaderless = leaderless && value != TokVal::Expired && !matches!(decoy, Some((_, TokVal::Expired)));
+            Case::Http(HttpCase { route, path: None, method, ops, carrier, value, decoy, fixture_keys, token_first_in_query, leaderless })
         })
 }
 
@@ -157,6 +163,8 @@ pub struct Env {
     pub a: Node,
     /// 1 s token TTL: expired tokens
     pub b: Node,
+    /// a node without a Raft leader
+    pub l: Node,
     pub valid: String,
     pub expired: String,
     /// canonical instantiated paths of the discovered routes in the statement's scope
@@ -490,11 +498,16 @@ pub fn run_http(env: &Env, case: &HttpCase, strict: bool) -> CaseReport {
     let fam = family(&eff);
     // normalise carrier / value
     let (carrier, value) = if case.carrier == Carrier::None { (Carrier::None, None) } else { (case.carrier, Some(case.value)) };
-    let is_valid = value == Some(TokVal::Valid);
+    let leaderless = case.leaderless && value != Some(TokVal::Expired);
+    // on the leaderless node a token of node A is a foreign token: it cannot be verified there
+    let is_valid = value == Some(TokVal::Valid) && !leaderless;
     let decoy = if is_valid { None } else { case.decoy };
     let uses_expired = value == Some(TokVal::Expired) || matches!(decoy, Some((_, TokVal::Expired)));
     let on_b = uses_expired;
-    let node = if on_b { &env.b } else { &env.a };
+    let node = if leaderless && !uses_expired { &env.l } else if on_b { &env.b } else { &env.a };
+    if leaderless && !uses_expired {
+        labels.insert("node_without_leader".into());
+    }
     let mut tokens: Vec<(Carrier, String)> = vec![];
     if let Some(v) = &value {
         tokens.push((carrier, env.token_text(v)));
@@ -624,8 +637,8 @@ pub fn run_http(env: &Env, case: &HttpCase, strict: bool) -> CaseReport {
             return done(labels, nontrivial, Some(format!("O1: {} -> {} although a handler exists for the same request line with a valid token", req.line(), resp.short())));
         }
     }
-    // O3
-    if !(method == "GET" || method == "HEAD") && fam != Family::Other {
+    // O3 (not on the leaderless node: nothing can be read back from it with a valid token)
+    if !(method == "GET" || method == "HEAD") && fam != Family::Other && !(leaderless && !uses_expired) {
         labels.insert("write_confirmed".into());
         match confirm_unchanged(env, on_b, fam, &keys, fixture) {
             Ok(None) => {}
@@ -714,9 +727,11 @@ pub fn build_env(ctx: &Ctx) -> Result<Env, String> {
     }
     let work = work_dir(ctx);
     let cluster_token = "rnv-cluster-token-7c1".to_string();
-    let cfg_a = NodeCfg { api_login_ttl_s: 7200, console_login_ttl_s: 7200, cluster_token: cluster_token.clone() };
-    let cfg_b = NodeCfg { api_login_ttl_s: B_TTL_S, console_login_ttl_s: B_TTL_S, cluster_token };
-    let mut nodes = Node::start_many(&work, &[("node-a", &cfg_a), ("node-b", &cfg_b)])?;
+    let cfg_a = NodeCfg { api_login_ttl_s: 7200, console_login_ttl_s: 7200, cluster_token: cluster_token.clone(), leaderless: false };
+    let cfg_b = NodeCfg { api_login_ttl_s: B_TTL_S, console_login_ttl_s: B_TTL_S, cluster_token: cluster_token.clone(), leaderless: false };
+    let cfg_l = NodeCfg { api_login_ttl_s: 7200, console_login_ttl_s: 7200, cluster_token, leaderless: true };
+    let mut nodes = Node::start_many(&work, &[("node-a", &cfg_a), ("node-b", &cfg_b), ("node-l", &cfg_l)])?;
+    let l = nodes.pop().ok_or("node-l missing")?;
     let b = nodes.pop().ok_or("node-b missing")?;
     let a = nodes.pop().ok_or("node-a missing")?;
     // expired token: issued by a successful login on B (TTL B_TTL_S); used only after >= TTL + 3 s
@@ -743,6 +758,7 @@ pub fn build_env(ctx: &Ctx) -> Result<Env, String> {
     Ok(Env {
         a,
         b,
+        l,
         valid,
         expired,
         scope_routes,
@@ -778,7 +794,22 @@ pub fn matrix(env: &Env) -> Vec<Case> {
                     decoy: None,
                     fixture_keys: vi % 2 == 0,
                     token_first_in_query: vi % 3 == 0,
+                    leaderless: false,
                 }));
+                if *v != TokVal::Expired {
+                    out.push(Case::Http(HttpCase {
+                        route: 0,
+                        path: Some(p.clone()),
+                        method: m as u8,
+                        ops: vec![],
+                        carrier: *c,
+                        value: *v,
+                        decoy: None,
+                        fixture_keys: false,
+                        token_first_in_query: vi % 3 == 0,
+                        leaderless: true,
+                    }));
+                }
             }
         }
     }
